@@ -442,7 +442,7 @@ def write_evidence(a, seed, t0, agg, vio_paths, incon, fid_ok, nknown, kernels=(
               assumptions=assumptions, wall_s=round(time.time() - t0, 2), violations=len(vio_paths))
     d = os.path.join(VERIF, 'evidence')
     os.makedirs(d, exist_ok=True)
-    json.dump(ev, open(os.path.join(d, a.prop + '.json'), 'w'), indent=1, sort_keys=True)
+    json.dump(ev, open(os.path.join(d, a.prop + ".json"), "w"), indent=1, sort_keys=True, default=str)
 
 
 def _z3v():
